@@ -252,19 +252,31 @@ class Check:
 
     # -- lean side
     def build_and_audit(self):
-        # translator step: data tables / constants are regenerated from /repo's current files
+        # translator step: the Generated/*.lean files this property depends on are regenerated from /repo's current files
         try:
             import importlib.util
-            spec = importlib.util.spec_from_file_location("gen_lean_tables", os.path.join(VERIF, "tools", "gen_lean_tables.py"))
-            mod = importlib.util.module_from_spec(spec)
-            spec.loader.exec_module(mod)
-            changed = mod.main()
+
+            def load(name):
+                spec = importlib.util.spec_from_file_location(name, os.path.join(VERIF, "tools", name + ".py"))
+                mod = importlib.util.module_from_spec(spec)
+                spec.loader.exec_module(mod)
+                return mod
+            changed = []
+            if self.pid in ("C14", "C05", "C18"):
+                t = load("gen_lean_tables")
+                if self.pid == "C14":
+                    changed += [t.gen_vdist("alpha"), t.gen_vdist("beta")]
+                elif self.pid == "C05":
+                    changed += [t.gen_background()]
+                else:
+                    changed += [t.gen_constants()]
+            if self.pid == "C20":
+                changed += [load("gen_footprints").main()["changed"]]
             if any(changed):
                 self.notes.append(f"Generated/*.lean rewritten from /repo: {changed}")
-                subprocess.run([os.path.join(LEAN, "gen_root.sh")], check=False)
         except Exception as e:  # noqa
-            self.broken_obligations.append(f"translator tools/gen_lean_tables.py failed: {e!r}")
-        ok, out = lake_build()
+            self.broken_obligations.append(f"translator failed: {e!r}")
+        ok, out = lake_build(targets=(f"Prs.Properties.{self.pid}", "driver"))
         if not ok:
             self.broken_obligations.append("lean-build")
             self.notes.append("lake build failed: " + out[-3000:])
